@@ -118,7 +118,7 @@ func ifaceMethodKey(t types.Type, m *types.Func) string {
 
 func (e *Encoder) callStatic(fr *frame, callee *ssa.Function, args []*SVal, bind []*SVal, ci ssa.CallInstruction, resT types.Type) *SVal {
 	name := callee.String()
-	if ct := e.w.Contracts[callee]; ct != nil && ct.Mode != "inline" && !ct.isEmpty() && callee != e.top {
+	if ct := e.w.Contracts[callee]; ct != nil && ct.Mode != "inline" && !ct.isEmpty() && callee != e.top && (e.specPure == 0 || callee.Blocks == nil) {
 		return e.applyContract(fr, ct, args, ci, resT)
 	}
 	if m, ok := nativeModels[name]; ok {
@@ -893,6 +893,47 @@ func init() {
 			n := c.BVBin("bvadd", b.Len, size)
 			return &SVal{K: KSlice, Typ: resT, Base: ref, Off: c.BVLit(0, 64), Len: n, Cap: n}
 		},
+		"time.Unix": func(e *Encoder, fr *frame, args []*SVal, ci ssa.CallInstruction, resT types.Type) *SVal {
+			// the result is an opaque time.Time denoting sec seconds + nsec nanoseconds after the epoch
+			c := e.c
+			t := e.freshVal("time", resT)
+			sec, ns := e.timeParts(t)
+			inRange := c.And(c.BVCmp("bvsle", c.BVLit(0, 64), args[1].T), c.BVCmp("bvslt", args[1].T, c.BVLit(1000000000, 64)))
+			e.assumeFact(c.Implies(inRange, c.And(c.Eq(sec, args[0].T), c.Eq(ns, args[1].T))))
+			e.trusted["time.Unix / Time.Unix / Time.Before / After / Equal: a time.Time denotes (seconds, nanoseconds) since the epoch"] = true
+			return t
+		},
+		"(time.Time).Unix": func(e *Encoder, fr *frame, args []*SVal, ci ssa.CallInstruction, resT types.Type) *SVal {
+			sec, _ := e.timeParts(args[0])
+			return &SVal{K: KScalar, Typ: types.Typ[types.Int64], T: sec}
+		},
+		"(time.Time).Before": func(e *Encoder, fr *frame, args []*SVal, ci ssa.CallInstruction, resT types.Type) *SVal {
+			c := e.c
+			s1, n1 := e.timeParts(args[0])
+			s2, n2 := e.timeParts(args[1])
+			return &SVal{K: KScalar, Typ: types.Typ[types.Bool], T: c.Or(c.BVCmp("bvslt", s1, s2), c.And(c.Eq(s1, s2), c.BVCmp("bvslt", n1, n2)))}
+		},
+		"(time.Time).After": func(e *Encoder, fr *frame, args []*SVal, ci ssa.CallInstruction, resT types.Type) *SVal {
+			c := e.c
+			s1, n1 := e.timeParts(args[1])
+			s2, n2 := e.timeParts(args[0])
+			return &SVal{K: KScalar, Typ: types.Typ[types.Bool], T: c.Or(c.BVCmp("bvslt", s1, s2), c.And(c.Eq(s1, s2), c.BVCmp("bvslt", n1, n2)))}
+		},
+		"(time.Time).Equal": func(e *Encoder, fr *frame, args []*SVal, ci ssa.CallInstruction, resT types.Type) *SVal {
+			c := e.c
+			s1, n1 := e.timeParts(args[0])
+			s2, n2 := e.timeParts(args[1])
+			return &SVal{K: KScalar, Typ: types.Typ[types.Bool], T: c.And(c.Eq(s1, s2), c.Eq(n1, n2))}
+		},
+		"(time.Duration).Seconds": func(e *Encoder, fr *frame, args []*SVal, ci ssa.CallInstruction, resT types.Type) *SVal {
+			return e.durationQuot(args[0], 1000000000)
+		},
+		"(time.Duration).Minutes": func(e *Encoder, fr *frame, args []*SVal, ci ssa.CallInstruction, resT types.Type) *SVal {
+			return e.durationQuot(args[0], 60*1000000000)
+		},
+		"(time.Duration).Hours": func(e *Encoder, fr *frame, args []*SVal, ci ssa.CallInstruction, resT types.Type) *SVal {
+			return e.durationQuot(args[0], 3600*1000000000)
+		},
 		"(gopacket.DecodeFeedback).SetTruncated": func(e *Encoder, fr *frame, args []*SVal, ci ssa.CallInstruction, resT types.Type) *SVal {
 			return &SVal{K: KTuple, Typ: resT}
 		},
@@ -1262,4 +1303,22 @@ func (e *Encoder) hashSize(h *SVal) *Term {
 		e.assumeFact(c.And(c.BVCmp("bvule", c.BVLit(1, 64), t), c.BVCmp("bvule", t, c.BVLit(64, 64))))
 	}
 	return t
+}
+
+// durationQuot: d.Seconds()/Minutes()/Hours() as the exact rational d/unit
+// (floating point treated as exact real arithmetic: stated assumption).
+func (e *Encoder) durationQuot(d *SVal, unit int64) *SVal {
+	c := e.c
+	e.trusted["time.Duration.Seconds/Minutes/Hours return the exact quotient (float64 treated as real arithmetic)"] = true
+	t := c.RealBin("/", e.bvToReal(d.T, true), c.RealLit(realLit(float64(unit))))
+	return &SVal{K: KScalar, Typ: types.Typ[types.Float64], T: t, Rat: &ratVal{Num: d.T, Den: unit}}
+}
+
+// timeParts: the (seconds, nanoseconds) since the epoch denoted by a time.Time
+// value, as uninterpreted functions of its representation (wall, ext).
+func (e *Encoder) timeParts(t *SVal) (*Term, *Term) {
+	if t.K != KStruct || len(t.Fields) < 2 {
+		return e.c.Fresh("sec", BV64), e.c.Fresh("nsec", BV64)
+	}
+	return e.c.App("timeSec", BV64, t.Fields[0].T, t.Fields[1].T), e.c.App("timeNsec", BV64, t.Fields[0].T, t.Fields[1].T)
 }
